@@ -606,6 +606,44 @@ def ops_used(q: Any, acc: Optional[Dict[str, int]] = None) -> Dict[str, int]:
     return acc
 
 
+def _uses_var(q: Any, x: str) -> bool:
+    if isinstance(q, dict):
+        return (q.get("k") == "var" and q.get("n") == x) or any(_uses_var(v, x) for v in q.values())
+    if isinstance(q, list):
+        return any(_uses_var(v, x) for v in q)
+    return False
+
+
+def ops_used_live(q: Any, acc: Optional[Dict[str, int]] = None, dead_elem: bool = False) -> Dict[str, int]:
+    """`ops_used` restricted to LIVE positions: the element expression of a sequence whose consumer ignores its
+    variable (`.Select(lambda x: 2.5)`) is never translated (nor evaluated by the query), so operators in it do not count."""
+    acc = {} if acc is None else acc
+    if isinstance(q, dict):
+        k = q.get("k")
+        if k in ("bin", "cmp"):
+            acc[q["op"]] = acc.get(q["op"], 0) + 1
+        elif k and k not in ("var", "int", "dbl", "bool", "str", "ds"):
+            acc[k] = acc.get(k, 0) + 1
+        ignores = k in ("Select", "Where", "SelectMany", "Aggregate") and "x" in q and not _uses_var(q.get("f"), q["x"])
+        for key, v in q.items():
+            if key == "s" and k in ("Select", "Where", "SelectMany", "Aggregate", "Count", "Sum", "First", "Min", "Max"):
+                if k == "Where":
+                    pass_dead = dead_elem and ignores
+                elif k == "Select":
+                    pass_dead = dead_elem or ignores
+                else:
+                    pass_dead = ignores
+                ops_used_live(v, acc, pass_dead)
+            elif key == "f" and k == "Select" and dead_elem:
+                continue
+            else:
+                ops_used_live(v, acc)
+    elif isinstance(q, list):
+        for v in q:
+            ops_used_live(v, acc)
+    return acc
+
+
 # ---------------------------------------------------------------- events
 
 HALVES = ["0.0", "0.5", "1.0", "1.5", "2.0", "2.5", "3.0", "-1.0", "-0.5", "4.0", "6.0"]
